@@ -7,7 +7,6 @@ pub mod server_mutate_ticks;
 use bevy::prelude::*;
 use bytes::{Buf, Bytes};
 use log::{debug, error, trace};
-use postcard::experimental::max_size::MaxSize;
 
 use crate::{
     prelude::*,
@@ -214,19 +213,20 @@ fn apply_replication(
     // but skip outdated data per-entity by checking last received tick for it
     // (unless user requested history via marker).
     let update_tick = *world.resource::<ServerUpdateTick>();
-    let acks_size =
-        MutateIndex::POSTCARD_MAX_SIZE * client.received_count(ServerChannel::Mutations);
-    if acks_size != 0 {
-        let mut acks = Vec::with_capacity(acks_size);
-        for message in client.receive(ServerChannel::Mutations) {
-            if let Err(e) = buffer_mutate_message(params, buffered_mutations, message, &mut acks) {
-                error!("unable to buffer mutate message: {e}");
-            }
+    for message in client.receive(ServerChannel::Mutations) {
+        if let Err(e) = buffer_mutate_message(params, buffered_mutations, message) {
+            error!("unable to buffer mutate message: {e}");
         }
-        client.send(ClientChannel::MutationAcks, acks);
     }
 
-    apply_mutate_messages(world, params, buffered_mutations, update_tick);
+    // Messages are acknowledged only when they are consumed: data of a message that is still
+    // waiting for its update message may be skipped as outdated later, and the server stops
+    // resending everything that was acknowledged.
+    let mut acks = Vec::new();
+    apply_mutate_messages(world, params, buffered_mutations, update_tick, &mut acks);
+    if !acks.is_empty() {
+        client.send(ClientChannel::MutationAcks, acks);
+    }
 }
 
 /// Reads and applies an update message.
@@ -311,7 +311,6 @@ fn buffer_mutate_message(
     params: &mut ReceiveParams,
     buffered_mutations: &mut BufferedMutations,
     mut message: Bytes,
-    acks: &mut Vec<u8>,
 ) -> Result<()> {
     if let Some(stats) = &mut params.stats {
         stats.messages += 1;
@@ -331,10 +330,9 @@ fn buffer_mutate_message(
         update_tick,
         message_tick,
         messages_count,
+        mutate_index,
         message,
     });
-
-    postcard_utils::to_extend_mut(&mutate_index, acks)?;
 
     Ok(())
 }
@@ -348,10 +346,18 @@ fn apply_mutate_messages(
     params: &mut ReceiveParams,
     buffered_mutations: &mut BufferedMutations,
     update_tick: ServerUpdateTick,
+    acks: &mut Vec<u8>,
 ) {
     buffered_mutations.0.retain_mut(|mutate| {
         if mutate.update_tick > *update_tick {
             return true;
+        }
+
+        if let Err(e) = postcard_utils::to_extend_mut(&mutate.mutate_index, acks) {
+            error!(
+                "unable to acknowledge mutate message for tick `{:?}`: {e}",
+                mutate.message_tick
+            );
         }
 
         trace!("applying mutate message for {:?}", mutate.message_tick);
@@ -849,6 +855,9 @@ pub(super) struct BufferedMutate {
     ///
     /// May not be equal to the number of received messages.
     messages_count: usize,
+
+    /// Index to acknowledge once the message is consumed.
+    mutate_index: MutateIndex,
 
     /// Mutations data.
     message: Bytes,
